@@ -127,10 +127,6 @@ def free_scalars(e):
     return sorted(out)
 
 
-def indexed_arrays(e):
-    return sorted({nd[1] for nd in X.walk(e) if nd[0] == "idxe"})
-
-
 def build_model(case):
     n = case["n"]
     v = D.var
@@ -245,8 +241,6 @@ def reference(case, env, der):
     return out
 
 
-
-
 def close(a, b):
     return abs(a - b) <= 1e-9 * (1.0 + max(abs(a), abs(b)))
 
@@ -339,6 +333,10 @@ def _check_case(ctx, case):
             if len(got_d) != len(dvals) or not all(close(a, b) for a, b in zip(got_d, dvals)):
                 raise Violation("delay_duration_value:" + kind, "delay %d (%s): duration output %r, reference %r\n%s" % (k, delay_states[k], got_d, dvals, where))
     labels.append("accepted_checked")
+    kinds = {("checked:loop_expanded" if case["opts"]["expand_vectors"] else "checked:loop_vector") if d["loop"] else "checked:scalar" for d in case["delays"]}
+    labels += sorted(kinds)
+    if len({tuple(r[1]) for r in ref}) >= 2:
+        labels.append("checked:distinct_durations")
     return dict(nontrivial=nontrivial, labels=labels, sample={"text": text, "options": case["opts"], "outcome": "accepted"})
 
 
@@ -440,7 +438,7 @@ def duration(draw, n, in_loop, forced, allow_indexed):
     n_members = draw(st.integers(1, 3))
     allowed = ["constant", "parameter", "fixed_input"]
     # durations that vary with the loop iteration: a rare, separately labelled variant
-    allow_indexed = in_loop and allow_indexed and draw(st.integers(0, 11)) == 0
+    allow_indexed = in_loop and allow_indexed and draw(st.integers(0, 4)) == 0
     if allow_indexed:
         allowed = allowed + ["loop_index"]
     cats = []
@@ -489,7 +487,7 @@ def case_strategy(draw, ctx=None):
             if hi == lo and n > lo:
                 hi = lo + 1
             d["lo"], d["hi"] = lo, hi
-            d["sibling"] = draw(st.integers(0, 2)) == 0
+            d["sibling"] = draw(st.booleans())
             allow_free = True
             if known_free and not d["sibling"]:
                 allow_free = False
